@@ -544,3 +544,109 @@ def rule_der1(ctx, root_rel, root_name):
         r.ok("DER1", f"{root_name}:none", loc(root, root.node), "",
              f"{len(classes)} classes: no constructor-derived attribute "
              "shadows state that has setters")
+
+
+def rule_shared1(ctx, rels):
+    """SHARED1: a function that hands out an element of a module-level
+    container (a memo) hands out the SAME object to every caller."""
+    from ..norm import single_defs
+    r = ctx.r
+    r.rule("SHARED1", "a function returning an entry of a module-level "
+                      "container (a memo of arrays) returns the one stored "
+                      "object to every caller: either it returns a copy, or "
+                      "no caller writes into what it receives (item / "
+                      "augmented assignment, in-place methods). "
+                      "sln_basis_matrix writes -1 into the matrix it gets "
+                      "from basis_matrix; with basis_matrix memoised, every "
+                      "later gln_adjoint uses E_ii - E_nn for E_ii")
+    n = 0
+    for rel in rels:
+        mod = ctx.p.module_by_rel(rel)
+        glob = set()
+        for st in mod.tree.body:
+            if isinstance(st, ast.Assign) and len(st.targets) == 1 \
+                    and isinstance(st.targets[0], ast.Name) and (
+                        isinstance(st.value, (ast.Dict, ast.List))
+                        or (isinstance(st.value, ast.Call)
+                            and dotted(st.value.func) in (
+                                "dict", "list", "defaultdict",
+                                "collections.defaultdict", "OrderedDict"))):
+                glob.add(st.targets[0].id)
+        if not glob:
+            continue
+
+        def from_global(e):
+            if isinstance(e, ast.Subscript) and isinstance(e.value, ast.Name) \
+                    and e.value.id in glob:
+                return True
+            if isinstance(e, ast.Call) and isinstance(e.func, ast.Attribute) \
+                    and e.func.attr in ("get", "setdefault") \
+                    and isinstance(e.func.value, ast.Name) \
+                    and e.func.value.id in glob:
+                return True
+            return False
+        for f in ctx.p.all_functions:
+            if f.module is not mod or f.parent is not None:
+                continue
+            shared_locals = set()
+            for st in ast.walk(f.node):
+                if isinstance(st, ast.Assign) and len(st.targets) == 1 \
+                        and isinstance(st.targets[0], ast.Name) \
+                        and from_global(st.value):
+                    shared_locals.add(st.targets[0].id)
+            hands_out = None
+            for rt in ast.walk(f.node):
+                if isinstance(rt, ast.Return) and rt.value is not None:
+                    v = rt.value
+                    if from_global(v) or (isinstance(v, ast.Name)
+                                          and v.id in shared_locals):
+                        hands_out = rt
+            if hands_out is None:
+                continue
+            n += 1
+            r.analysed(f)
+            writers = []
+            for cs in ctx.cg.callers.get(f, []):
+                g = cs.caller
+                par = g.module.parents.get(cs.node)
+                if not (isinstance(par, ast.Assign) and len(par.targets) == 1
+                        and isinstance(par.targets[0], ast.Name)):
+                    continue
+                nm = par.targets[0].id
+                for st in ast.walk(g.node):
+                    tgt = None
+                    if isinstance(st, ast.Assign):
+                        for t in st.targets:
+                            if isinstance(t, ast.Subscript):
+                                tgt = t
+                    elif isinstance(st, ast.AugAssign):
+                        tgt = st.target
+                    if tgt is None:
+                        continue
+                    base = tgt
+                    while isinstance(base, ast.Subscript):
+                        base = base.value
+                    if isinstance(base, ast.Name) and base.id == nm \
+                            and st.lineno > par.lineno:
+                        writers.append((g, st))
+            inst = f"{f.qualname}:shared-result"
+            if not writers:
+                r.ok("SHARED1", inst, loc(f, hands_out),
+                     dotted(hands_out)[:60],
+                     "no caller writes into the shared result")
+            else:
+                g, st = writers[0]
+                r.violation(
+                    "SHARED1", f"{f.fq}|{g.qualname}", loc(g, st),
+                    dotted(st)[:80],
+                    f"{f.qualname} returns the object stored in a "
+                    f"module-level container, and {g.qualname} writes into "
+                    f"it (`{dotted(st)[:50]}`): the stored entry is changed "
+                    "for every later caller -- after one sln_adjoint / "
+                    "sln_killing_form call, gln_adjoint for the same (n, "
+                    "dtype) is built from corrupted elementary matrices: "
+                    "Ad(1) != 1, Ad(g)Ad(h) != Ad(gh)",
+                    instance=inst)
+    if n == 0:
+        r.ok("SHARED1", "modules", ",".join(rels), "",
+             "no function returns an entry of a module-level container")
